@@ -249,6 +249,60 @@ fn check_fixture(c: &FixtureCase) -> Outcome {
     }
 }
 
+/// One package referenced from two syntactic positions at equal or different versions: the expected key
+/// set is known by construction.
+fn check_two_references(c: &(usize, usize, usize, usize)) -> Outcome {
+    let versions = [None, Some("1.0.0"), Some("2.0.0"), Some("1.0.0-rc.1")];
+    let frag = |pos: usize, v: Option<&str>, k: usize| -> (String, bool) {
+        let at = v.map(|v| format!("@{v}")).unwrap_or_default();
+        match pos {
+            0 => (format!("import a{k}: same:pkg/iface{at};\n"), false),
+            1 => (format!("let x{k} = new same:pkg{at} {{ ... }};\n"), false),
+            2 => (format!("interface i{k} {{ use same:pkg/iface{at}.{{t}}; }}\n"), false),
+            3 => (format!("world w{k} {{ import same:pkg/iface{at}; }}\n"), false),
+            4 => (format!("world v{k} {{ include same:pkg/w{at}; }}\n"), false),
+            5 => (format!("export new same:pkg{at} {{ ... }} as \"e{k}\";\n"), false),
+            _ => (format!(" targets same:pkg/w{at}"), true),
+        }
+    };
+    let (p1, v1, p2, v2) = *c;
+    let (f1, d1) = frag(p1, versions[v1], 1);
+    let (f2, d2) = frag(p2, versions[v2], 2);
+    if d1 && d2 {
+        return Outcome::pass().label("skipped:two-targets");
+    }
+    let mut text = String::from("package test:comp");
+    if d1 {
+        text.push_str(&f1);
+    }
+    if d2 {
+        text.push_str(&f2);
+    }
+    text.push_str(";\n");
+    if !d1 {
+        text.push_str(&f1);
+    }
+    if !d2 {
+        text.push_str(&f2);
+    }
+    let want: BTreeSet<(String, Option<String>)> = [versions[v1], versions[v2]].iter().map(|v| ("same:pkg".to_string(), v.map(|v| v.to_string()))).collect();
+    let o = Outcome::pass().nontrivial(v1 != v2).label("two-references-to-one-package").rendered(json!({"document": text}));
+    let doc = match Document::parse(&text) {
+        Ok(d) => d,
+        Err(e) => return o.with_verdict(Verdict::GenInvalid(format!("{e:?}\n{text}"))),
+    };
+    match guarded(|| wac_resolver::packages(&doc).map(|k| k.keys().map(|k| (k.name.to_string(), k.version.map(|v| v.to_string()))).collect::<BTreeSet<_>>())) {
+        Err(p) => o.with_verdict(Verdict::Foreign(format!("discovery panicked (C14's obligation): {p}"))),
+        Ok(Err(e)) => o.with_verdict(Verdict::Fail { sig: "C17/discovery-error".into(), msg: format!("{e:?}\n{text}") }),
+        Ok(Ok(found)) => {
+            if found != want {
+                return o.with_verdict(Verdict::Fail { sig: format!("C17/two-references:{}", if found.len() < want.len() { "key-not-discovered" } else { "unexpected-key" }), msg: format!("discovered {found:?}; the document references {want:?}\n{text}") });
+            }
+            o.comparisons(1)
+        }
+    }
+}
+
 pub fn run(tier: Tier, seed: u64, replay: Option<&std::path::Path>) -> i32 {
     let mut run = Run::new(
         "C17",
@@ -268,6 +322,17 @@ pub fn run(tier: Tier, seed: u64, replay: Option<&std::path::Path>) -> i32 {
     }
     let fx: Vec<FixtureCase> = (0..fixtures().len()).map(|file| FixtureCase { file }).collect();
     run.enumerate(&fx, check_fixture);
+    let mut pairs = vec![];
+    for p1 in 0..7 {
+        for p2 in 0..7 {
+            for v1 in 0..4 {
+                for v2 in 0..4 {
+                    pairs.push((p1, v1, p2, v2));
+                }
+            }
+        }
+    }
+    run.enumerate(&pairs, check_two_references);
     let n = tier.pick(30_000, 400_000);
     // make the own package coincide with referenced packages now and then
     let strat = || {
